@@ -151,9 +151,28 @@ def peel(e):
             e = e.get("e") or e.get("a")
         elif k == "Block" and not e.get("stmts") and e.get("expr") is not None:
             e = e["expr"]
+        elif k in ("Call", "MethodCall") and isinstance(e.get("inlined"), dict):
+            # an accessor extracted into a helper (vlib/canon.py): `self.flag_at(i)` ≡ `&mut self.body.instructions[i].instr_flag`
+            t = _inlined_place(e["inlined"])
+            if t is None:
+                break
+            e = t
         else:
             break
     return e
+
+
+def _inlined_place(inl):
+    """the place an inlined helper evaluates to, when its body is nothing but that place expression"""
+    b = inl.get("body")
+    while isinstance(b, dict) and b.get("k") == "Block" and not b.get("stmts") and b.get("expr") is not None:
+        b = b["expr"]
+    t = b
+    while isinstance(t, dict) and t.get("k") in ("AddrOf", "Field", "Index") or (isinstance(t, dict) and t.get("k") == "Unary" and t.get("op") == "*"):
+        t = t.get("a") or t.get("base")
+    if isinstance(t, dict) and t.get("k") == "Path" and isinstance(b, dict) and b.get("k") != "Path":
+        return b
+    return None
 
 
 def place_path(e):
@@ -268,8 +287,15 @@ def lca(root, a, b):
     return last
 
 
+def sp_key(n):
+    """source position as an evaluation-order key; nodes of an inlined helper sit at the end of the call expression, in
+    the helper's own source order (`ord`, see vlib/canon.py)"""
+    e = n.get("esp") or n["sp"]
+    return (e[0], e[1], n.get("ord", 0.0))
+
+
 def sp_before(a, b):
-    return (a["sp"][0], a["sp"][1]) < (b["sp"][0], b["sp"][1])
+    return sp_key(a) < sp_key(b)
 
 
 def uncond_before(root, a, b):
@@ -286,6 +312,16 @@ def uncond_before(root, a, b):
         c = conds[0]
         what = c.get("k")
         return False, "only under a conditional (%s at line %s)" % (what, c.get("sp", ["?"])[0])
+    # `a` inside a helper body attached to its call site (vlib/canon.py): an earlier `return` of the helper skips `a` while
+    # the caller carries on to `b`
+    pa = path_to(l, a) or []
+    for i, (anc, _role) in enumerate(pa):
+        if isinstance(anc, dict) and anc.get("k") == "Inlined":
+            for x in walk(anc.get("body") or {}):
+                if x.get("k") == "Ret" and sp_before(x, a) and not any(y is a for y in walk(x)):
+                    inner = [q for q, _ in (path_to(anc, x) or []) if isinstance(q, dict) and q.get("k") in ("Closure", "Inlined") and q is not anc]
+                    if not inner:
+                        return False, "the extracted helper may return before it (line %s)" % x.get("sp", ["?"])[0]
     return True, ""
 
 
@@ -300,9 +336,9 @@ def every_iteration(scope, node):
     for x in walk(scope):
         if x.get("k") in ("Break", "Continue", "Ret") and x.get("sp") and sp_before(x, node):
             # exits of nested loops/closures do not leave this scope
-            inner = [a for a, _ in (path_to(scope, x) or []) if isinstance(a, dict) and a.get("k") in ("Loop", "Closure") and a is not scope]
+            inner = [a for a, _ in (path_to(scope, x) or []) if isinstance(a, dict) and a.get("k") in ("Loop", "Closure", "Inlined") and a is not scope]
             if x.get("k") == "Ret":
-                inner = [a for a in inner if a.get("k") == "Closure"]
+                inner = [a for a in inner if a.get("k") in ("Closure", "Inlined")]
             if not inner:
                 return False, "after an early %s at line %s" % (x["k"].lower(), x["sp"][0])
     return True, ""
@@ -388,6 +424,24 @@ def guard_conditions(root, node):
                         out.append((False, e_["cond"]))
                 if st.get("k") == "Let" and "else" in st and "init" in st:
                     out.append(("pat", (st["pat"], st["init"])))
+                # a preceding call to a helper whose body was attached (vlib/canon.py): the guard clauses at the top level of
+                # the helper that end in a panic (not in a `return`) hold once the helper has returned
+                top = st.get("init") if st.get("k") == "Let" else e_
+                top = peel(top) if isinstance(top, dict) else None
+                while isinstance(top, dict) and top.get("k") == "Match" and (top.get("src") or "").startswith("TryDesugar"):
+                    top = peel(top["scrut"])
+                    if top.get("k") == "Call" and top.get("args") and "inlined" not in top:
+                        top = peel(top["args"][0])
+                if isinstance(top, dict) and top.get("k") in ("Call", "MethodCall") and isinstance(top.get("inlined"), dict):
+                    hb = top["inlined"].get("body")
+                    if isinstance(hb, dict) and hb.get("k") == "Block":
+                        for hst in hb.get("stmts") or []:
+                            he = hst.get("e") if hst.get("k") in ("Semi", "Expr") else None
+                            if isinstance(he, dict) and he.get("k") == "If" and "else" not in he and diverges(he["then"]) \
+                                    and not any(x.get("k") == "Ret" for x in walk(he["then"])):
+                                hc = peel(he["cond"])
+                                if hc.get("k") != "LetExpr":
+                                    out.append((False, he["cond"]))
     return out
 
 
@@ -500,10 +554,26 @@ class Facts:
             self.by_path.setdefault(f["path"], []).append(f)
         self.renamed = {}
         self.renamed_fields = {}
-        try:
-            self._canonicalise_renames()
-        except Exception:       # the fallback must never make things worse: names that do not resolve fail closed in one_fn
-            self.renamed = {}
+        self.inlined_calls = 0
+        table = self._anchor_table()
+        if table and not os.environ.get("VERIF_NO_CANON"):
+            from vlib import canon
+            try:
+                self.renamed = canon.canonicalise_functions(self, table)
+            except Exception:       # the fallback must never make things worse: names that do not resolve fail closed in one_fn
+                self.renamed = {}
+            if self.renamed:
+                self.by_path = {}
+                for f in self.fns:
+                    self.by_path.setdefault(f["path"], []).append(f)
+            try:
+                self.inlined_calls = canon.inline_new_helpers(self, table)
+            except Exception:
+                self.inlined_calls = 0
+        self.all_fns = self.fns
+        hidden = {f["path"] for f in self.fns if f.get("hidden_helper")}
+        if hidden:
+            self.fns = [f for f in self.all_fns if f["path"] not in hidden and not (f["kind"] == "Closure" and (f.get("parent") or "") in hidden)]
         try:
             self._canonicalise_field_renames()
         except Exception:
@@ -514,6 +584,13 @@ class Facts:
         except Exception:
             pass
         self.load_s = time.time() - t0
+
+    def _anchor_table(self):
+        try:
+            with open(os.path.join(os.path.dirname(os.path.dirname(os.path.abspath(__file__))), "tables", "anchors.json")) as fh:
+                return json.load(fh)
+        except (OSError, ValueError):
+            return None
 
     @staticmethod
     def _bindings(f):
@@ -630,105 +707,6 @@ class Facts:
             fix(f)
         self.renamed_fields = ren
 
-    def _canonicalise_renames(self):
-        """Rules address a number of non-public functions by name.  A pure rename of such a function (same owner type,
-        same signature, same callers) is not a change of behaviour: when a recorded name no longer resolves and exactly one
-        function matches its recorded role, the facts are rewritten so that it appears under its recorded name again
-        (function record, closures, resolved callees in HIR and MIR).  tables/anchors.json, generated from the reviewed
-        tree, holds the roles.  Ambiguity of any kind leaves the facts untouched."""
-        import re as _re
-        try:
-            with open(os.path.join(os.path.dirname(os.path.dirname(os.path.abspath(__file__))), "tables", "anchors.json")) as fh:
-                table = json.load(fh)["anchors"]
-        except (OSError, ValueError, KeyError):
-            return
-        have = {}
-        for f in self.fns:
-            if f["kind"] in ("Fn", "AssocFn"):
-                have.setdefault(f["name"], []).append(f)
-        # a free function moved to another module keeps its name but changes its def-path (which violation keys carry)
-        moved = {}
-        for key, row in table.items():
-            name = key.split("|")[0]
-            if row["self_adt"] == "" and row.get("vis") != "pub":
-                cur = [g for g in have.get(name, []) if not g.get("self_adt")]
-                if len(cur) == 1 and cur[0]["path"] != row["path"] and self._sig(cur[0]) == row["sig"] and row["path"] not in self.by_path:
-                    moved[cur[0]["path"]] = row["path"]
-        if moved:
-            def fixp(o):
-                if isinstance(o, dict):
-                    for k, v in o.items():
-                        if isinstance(v, str):
-                            if k in ("callee", "inst", "path", "parent", "def", "func", "fn"):
-                                for a_, b_ in moved.items():
-                                    if v == a_ or v.startswith(a_ + "::") or v.startswith(a_ + "<"):
-                                        o[k] = b_ + v[len(a_):]
-                        else:
-                            fixp(v)
-                elif isinstance(o, list):
-                    for v in o:
-                        fixp(v)
-            for f in self.fns:
-                fixp(f)
-            self.by_path = {}
-            for f in self.fns:
-                self.by_path.setdefault(f["path"], []).append(f)
-            self.moved = moved
-        missing = []
-        for key, row in table.items():
-            name = key.split("|")[0]
-            if row.get("vis") == "pub":
-                continue
-            if not any((g.get("self_adt") or "") == row["self_adt"] for g in have.get(name, [])):
-                missing.append((name, row))
-        if not missing:
-            return
-        known = {k.split("|")[0] for k in table}
-        todo = {}
-        for name, row in missing:
-            cands = []
-            for g in self.fns:
-                if g["kind"] not in ("Fn", "AssocFn") or g["name"] in known or len(have.get(g["name"], [])) != 1:
-                    continue
-                if (g.get("self_adt") or "") != row["self_adt"] or self._sig(g) != row["sig"]:
-                    continue
-                callers = sorted("<self>" if c == g["name"] else c for c in self.callers_of(g["name"]))
-                if callers == row["callers"]:
-                    cands.append(g)
-            if len(cands) == 1 and cands[0]["name"] not in todo:
-                todo[cands[0]["name"]] = name
-        if not todo:
-            return
-        pat = _re.compile(r"(?<![A-Za-z0-9_])(%s)(?![A-Za-z0-9_])" % "|".join(_re.escape(n) for n in todo))
-
-        def fix(o):
-            if isinstance(o, dict):
-                for k, v in o.items():
-                    if isinstance(v, str):
-                        if k in ("callee", "inst", "path", "parent", "def", "func", "fn", "name_path") and pat.search(v):
-                            o[k] = pat.sub(lambda m: todo[m.group(1)], v)
-                        elif k == "method" and v in todo and pat.search(o.get("callee") or ""):
-                            o[k] = todo[v]
-                    else:
-                        fix(v)
-            elif isinstance(o, list):
-                for v in o:
-                    fix(v)
-        for f in self.fns:
-            if f["kind"] in ("Fn", "AssocFn") and f["name"] in todo:
-                f["name"] = todo[f["name"]]
-            # order matters: `method` looks at the not yet rewritten callee
-            fix_m = [f.get("body"), f.get("mir")]
-            for part in fix_m:
-                _fix_methods(part, todo, pat)
-            fix(f)
-        self.renamed = {v: k for k, v in todo.items()}
-        self.by_path = {}
-        for f in self.fns:
-            self.by_path.setdefault(f["path"], []).append(f)
-        if hasattr(self, "_callers"):
-            del self._callers
-
     # --- anchors (fail closed) -------------------------------------------
     def fn(self, path):
         """Exact def-path lookup."""
@@ -811,18 +789,6 @@ class Facts:
     def loc(self, fn, node=None):
         sp = (node or fn).get("csp") or (node or fn).get("sp") or fn["sp"]
         return "%s:%d" % (fn["file"], sp[0])
-
-
-def _fix_methods(o, todo, pat):
-    if isinstance(o, dict):
-        if o.get("k") == "MethodCall" and o.get("method") in todo and pat.search(o.get("callee") or ""):
-            o["method"] = todo[o["method"]]
-        for v in o.values():
-            if isinstance(v, (dict, list)):
-                _fix_methods(v, todo, pat)
-    elif isinstance(o, list):
-        for v in o:
-            _fix_methods(v, todo, pat)
 
 
 _cached = {}
